@@ -38,6 +38,7 @@ func TestVerif_Histories(t *testing.T) {
 		}
 	})
 	o := opts
+	o.Ctl = ctl // (for the queued-Close probe: Close held up before its table lock while another iterator is registered)
 	o.OnSim = func(s *dbsim.Sim) func() {
 		monitors.Store(s.Handle, s.RegistrationMonitor(ctl)) // table registrations run into some of the commits
 		return func() { monitors.Delete(s.Handle) }
